@@ -56,6 +56,33 @@ CONTENTS = [{}, {'new': 'role:x'}, {'old': 'role:y'}, {'same': 'role:z', 'plain'
             {'helper': 'role:z'}]
 
 
+# Strata D0 / D: policy directories with SEVERAL files, enforcers built with or without `overwrite`.
+# Families of file contents: the three variants of a family define the same names with different values (so that an edit from
+# one variant to another changes values only), and the families overlap in the names they define (sorted file order decides).
+DFAMILIES = [
+    [{'new': 'role:x', 'helper': 'role:y'}, {'new': 'role:y', 'helper': 'role:z'}, {'new': 'role:z', 'helper': 'role:x'}],
+    [{'old': 'role:y', 'plain': 'role:x'}, {'old': 'role:z', 'plain': 'role:q'}, {'old': 'rule:helper', 'plain': 'role:m'}],
+    [{'same': 'role:z', 'new': 'role:x', 'old': 'role:y'}, {'same': 'role:x', 'new': 'role:q', 'old': 'role:z'},
+     {'same': 'role:n or role:m', 'new': 'rule:helper', 'old': 'role:x'}],
+    [{'helper': 'role:x', 'old': 'role:o', 'zz': 'role:x'}, {'helper': 'role:z', 'old': 'role:m', 'zz': 'role:y'},
+     {'helper': 'role:p', 'old': 'rule:zz', 'zz': 'role:z'}],
+    [{'old': 'role:x'}, {'old': 'role:y'}, {'old': 'role:q'}],
+    [{'new': 'role:p', 'same': 'role:q', 'plain': 'role:x', 'helper': 'role:m'}, {'new': 'role:y', 'same': 'role:z', 'plain': 'role:n', 'helper': 'role:q'},
+     {'new': 'role:m and role:o', 'same': 'role:x', 'plain': 'rule:helper', 'helper': 'role:y'}],
+    [{}, {}, {}],
+]
+NVAR = 3
+DCONTENTS = [v for fam in DFAMILIES for v in fam]
+DFILES = ['00-base.yaml', '10-a.json', '50-mid.yaml', '90-site.yaml', 'A.yaml', 'o.yaml', 'z.yaml', 'Z-last.json']
+DFORMATS = ['json', 'yaml-lines', 'yaml']
+BOUNDS_D = {'quick': dict(nD=160), 'thorough': dict(nD=6000)}
+
+
+def enforcer_kwargs(ow):
+    """Constructor options of a world's enforcers: `overwrite` is only passed when the case names a value (None: the default)."""
+    return {} if ow is None else {'overwrite': bool(ow)}
+
+
 NEW_SHAPES = ['role:n', 'role:n or role:q', 'role:n and role:p', 'not role:z', '(role:n or role:x) or role:q', 'role:n or (role:p and role:q)']
 SAME_SHAPES = ['role:n and role:p', 'role:n or role:p', 'role:p', '(role:n and role:p) or role:q']
 OLD_SHAPES = ['role:o', 'role:o or role:m', 'role:o and role:m', 'role:n']
@@ -112,6 +139,33 @@ def printed(enf):
     return {k: str(v) for k, v in enf.rules.items()}
 
 
+def note_files(w):
+    """Book-keeping for enforcers that do not overwrite: every name a file of this world has defined so far, and whether the values the
+    files give to the deprecated predecessor `old` have changed since the enforcer was built."""
+    for m in w['content'].values():
+        w['ever'].update(m)
+    dep = tuple(sorted((rel, m.get('old')) for rel, m in w['content'].items()))
+    if w['dep0'] is None:
+        w['dep0'] = dep
+    elif dep != w['dep0']:
+        w['dep_changed'] = True
+
+
+def keeps_entries(w, with_dep):
+    """Why a fresh enforcer loading the current files once is NOT the yardstick for this non-overwriting enforcer right now (None: it is).
+    Entries of the living store are only ever replaced by what a file defines now, so (1) a name no current file defines any more keeps
+    its old entry, and (2) the entry that was derived for `new` from the registered default and the file value of its deprecated
+    predecessor `old` (defaults are only consulted for names absent from the store) stays as derived at the first load."""
+    now = set()
+    for m in w['content'].values():
+        now.update(m)
+    if w['ever'] - now:
+        return 'non-overwrite-enforcer-keeps-removed-names'
+    if with_dep and w['dep_changed'] and 'new' not in now:
+        return 'non-overwrite-enforcer-keeps-entry-derived-from-default'
+    return None
+
+
 def run_history(ctx, case):
     from oslo_policy import policy
     shared = make_defaults(policy, case['with_dep'], case.get('dshape', 0))
@@ -126,14 +180,33 @@ def run_history(ctx, case):
             if with_dir and cfg_.get('dir_initial') is not None:
                 tree.write('pd/o.yaml', CONTENTS[cfg_['dir_initial']], 'json')
             dirs = [tree.path('pd')] if with_dir else []
-            enf = policy.Enforcer(tree.conf(policy_dirs=dirs, enforce_new_defaults=cfg_['flag']))
+            # strata D0 / D: the main file and SEVERAL directory files come from the content families (`dmain`, `dir_files`); the
+            # enforcer may be built with an explicit `overwrite` option
+            content = {}
+            if cfg_['initial'] is not None:
+                content['policy.yaml'] = CONTENTS[cfg_['initial']]
+            if with_dir and cfg_.get('dir_initial') is not None:
+                content['pd/o.yaml'] = CONTENTS[cfg_['dir_initial']]
+            if cfg_.get('dmain') is not None:
+                tree.write('policy.yaml', DCONTENTS[cfg_['dmain'][0]], DFORMATS[cfg_['dmain'][1] % len(DFORMATS)])
+                content['policy.yaml'] = DCONTENTS[cfg_['dmain'][0]]
+            dfiles = []
+            for name, ci, fmt in (cfg_.get('dir_files') or []) if with_dir else []:
+                dfiles.append('pd/' + name)
+                if ci is not None:
+                    tree.write('pd/' + name, DCONTENTS[ci], DFORMATS[fmt % len(DFORMATS)])
+                    content['pd/' + name] = DCONTENTS[ci]
+            ow = cfg_.get('overwrite')
+            enf = policy.Enforcer(tree.conf(policy_dirs=dirs, enforce_new_defaults=cfg_['flag']), **enforcer_kwargs(ow))
             enf.register_defaults(shared)
             worlds.append(dict(tree=tree, enf=enf, flag=cfg_['flag'], last=None, dirs=dirs, broken=set(), was_broken=False, touched=False,
-                               had_main=cfg_['initial'] is not None))
+                               had_main=cfg_['initial'] is not None or cfg_.get('dmain') is not None, ow=ow, dfiles=dfiles, content=content,
+                               ever=set(), dep0=None, dep_changed=False, bumped=False))
+            note_files(worlds[-1])
 
         def fresh_exception(ww):
             """Name of the exception a fresh enforcer's first load raises for ww's current files (None: it loads)."""
-            f = policy.Enforcer(ww['tree'].conf(policy_dirs=ww['dirs'], enforce_new_defaults=ww['flag']))
+            f = policy.Enforcer(ww['tree'].conf(policy_dirs=ww['dirs'], enforce_new_defaults=ww['flag']), **enforcer_kwargs(ww['ow']))
             f.register_defaults(make_defaults(policy, case['with_dep'], case.get('dshape', 0)))
             try:
                 f.load_rules()
@@ -163,24 +236,58 @@ def run_history(ctx, case):
                     if w['dirs']:
                         w['tree'].write('pd/o.yaml', CONTENTS[arg % len(CONTENTS)], 'json')
                         w['broken'].discard('pd/o.yaml')
+                        w['content']['pd/o.yaml'] = CONTENTS[arg % len(CONTENTS)]
                 elif op == 'rmmain':
                     w['tree'].delete('policy.yaml')
                     w['broken'].discard('policy.yaml')
+                    w['content'].pop('policy.yaml', None)
                 elif op == 'break':
                     # the main file momentarily holds something that is not a policy mapping (half-written, wrong file copied, ...)
                     w['tree'].write_text('policy.yaml', BROKEN[arg % len(BROKEN)])
                     w['broken'].add('policy.yaml')
                     w['was_broken'] = w['had_main'] = True
+                    w['content'].pop('policy.yaml', None)
                 elif op == 'breakdir':
                     if w['dirs']:
                         w['tree'].write_text('pd/o.yaml', BROKEN[arg % len(BROKEN)])
                         w['broken'].add('pd/o.yaml')
                         w['was_broken'] = True
+                        w['content'].pop('pd/o.yaml', None)
+                elif op == 'touch':
+                    # newer modification time, identical bytes (the file written again as it is); target 0 = the main file,
+                    # t > 0 = the t-th file of the policy directory
+                    rels = ['policy.yaml'] + w['dfiles']
+                    rel = rels[arg % len(rels)]
+                    if w['tree'].exists(rel):
+                        w['tree'].touch(rel)
+                        w['bumped'] = True
+                        ctx.count('touches_main_file' if rel == 'policy.yaml' else 'touches_one_directory_file')
+                elif op == 'editfile':
+                    # arg = [file, content, format]; file -1 = the main file, otherwise the index of a file of the policy directory (which
+                    # is created if it does not exist yet)
+                    fi, ci, fmt = arg
+                    if fi < 0 or w['dfiles']:
+                        rel = 'policy.yaml' if fi < 0 else w['dfiles'][fi % len(w['dfiles'])]
+                        w['tree'].write(rel, DCONTENTS[ci % len(DCONTENTS)], DFORMATS[fmt % len(DFORMATS)])
+                        w['broken'].discard(rel)
+                        w['content'][rel] = DCONTENTS[ci % len(DCONTENTS)]
+                        w['bumped'] = True
+                        if fi < 0:
+                            w['had_main'] = True
+                        ctx.count('edits_main_file' if fi < 0 else 'edits_one_directory_file')
+                elif op == 'rmfile':
+                    if w['dfiles']:
+                        rel = w['dfiles'][arg % len(w['dfiles'])]
+                        w['tree'].delete(rel)
+                        w['broken'].discard(rel)
+                        w['content'].pop(rel, None)
                 else:
                     w['tree'].write('policy.yaml', CONTENTS[arg % len(CONTENTS)], 'json' if arg % 2 else 'yaml-lines')
                     w['broken'].discard('policy.yaml')
                     w['had_main'] = True
                     edited = True
+                    w['content']['policy.yaml'] = CONTENTS[arg % len(CONTENTS)]
+                note_files(w)
             except Exception as e:
                 fe = fresh_exception(w) if w['broken'] else None
                 if fe is None:
@@ -214,10 +321,24 @@ def run_history(ctx, case):
                         if any(v == 'EXC:' + fe for v in got.values()):
                             ctx.count('loads_raising_while_unparseable')
                         continue
+                if ww['ow'] is not None and not ww['ow']:
+                    # an enforcer built with overwrite=False merges what it reads into the living store and never removes or recomputes
+                    # an entry: "the policy of loading once" is only determined by the current files while every entry the store can
+                    # hold is still dictated by them
+                    tag = keeps_entries(ww, case['with_dep'])
+                    if tag:
+                        ctx.unconstrained(tag)
+                        decisions(ww['enf'])        # the implicit loads of the comparison still happen
+                        continue
+                    ctx.count('nonoverwrite_steps_compared')
+                    if ww['bumped']:
+                        ctx.count('nonoverwrite_steps_compared_after_touch_or_edit')
+                if len(ww['dfiles']) > 1:
+                    ctx.count('multi_file_directory_steps_compared')
                 if ww['was_broken']:
                     ctx.count('recoveries_judged')
                 got = decisions(ww['enf'])
-                fresh = policy.Enforcer(ww['tree'].conf(policy_dirs=ww['dirs'], enforce_new_defaults=ww['flag']))
+                fresh = policy.Enforcer(ww['tree'].conf(policy_dirs=ww['dirs'], enforce_new_defaults=ww['flag']), **enforcer_kwargs(ww['ow']))
                 fresh.register_defaults(make_defaults(policy, case['with_dep'], case.get('dshape', 0)))
                 want = decisions(fresh)
                 ctx.count('steps_compared')
@@ -338,6 +459,92 @@ def fault_case(r, tag):
     return dict(s='F', with_dep=r.random() < 0.8, dshape=r.randrange(24), enforcers=enforcers, history=hist, judge=judge, tag=tag)
 
 
+def d0_cases():
+    """Stratum D0 (systematic): ONE enforcer with a policy directory of two or three files that define the same names with different
+    values; after a first load ONE file (the main file or one file of the directory) is touched or gets other values, then one more
+    load / enforcement / forced load follows."""
+    idx = 0
+    for ow in (False, None):
+        for nfiles in (2, 3):
+            for fam in (2, 4, 5):
+                targets = list(range(-1, nfiles))
+                for kind in ('touch', 'editfile'):
+                    for t in targets:
+                        for follow in ('load', 'enforce', 'force'):
+                            for last_only in (False, True):
+                                idx += 1
+                                names = [DFILES[(idx + 3 * j) % len(DFILES)] for j in range(nfiles)]
+                                if len(set(names)) < nfiles:
+                                    names = DFILES[:nfiles]
+                                names = sorted(names)
+                                # file j holds variant j of the family: same names, different values in every file
+                                dir_files = [[names[j], fam * NVAR + j % NVAR, (idx + j) % len(DFORMATS)] for j in range(nfiles)]
+                                mfam = [fam, None, (fam + 1) % len(DFAMILIES)][idx % 3]
+                                dmain = None if mfam is None else [mfam * NVAR + (NVAR - 1), idx % len(DFORMATS)]
+                                if kind == 'touch':
+                                    if t < 0 and dmain is None:
+                                        continue
+                                    step = ['touch', 0, t + 1]
+                                else:
+                                    cur = dmain[0] if t < 0 and dmain is not None else (dir_files[t][1] if t >= 0 else fam * NVAR)
+                                    step = ['editfile', 0, [t, (cur // NVAR) * NVAR + (cur + 1 + idx % 2) % NVAR, idx % len(DFORMATS)]]
+                                hist = [[['load', 'enforce'][idx % 2], 0, idx % 7], step, [follow, 0, (idx // 2) % 7]]
+                                yield idx, dict(s='D0', with_dep=idx % 4 != 0, dshape=idx % 24, history=hist, judge=[2] if last_only else None,
+                                                enforcers=[dict(flag=bool((idx // 2) % 2), initial=None, dmain=dmain, with_dir=True, overwrite=ow,
+                                                                dir_files=dir_files)])
+
+
+def dir_case(r, tag):
+    """Stratum D (random): 1-2 enforcers, each with its own `overwrite` option (False, the default, or True spelled out), a main file (or
+    none) and a policy directory of two or three files from the content families; histories over load / forced load / enforce / touch
+    of one file / edit of one file / (for overwriting enforcers) removal of one directory file."""
+    k = r.randint(1, 2)
+    enforcers, cur = [], []
+    for _ in range(k):
+        ow = r.choice([False, False, False, None, None, True])
+        nfiles = r.randint(2, 3)
+        names = sorted(r.sample(DFILES, nfiles))
+        if r.random() < 0.55:
+            fam = r.randrange(len(DFAMILIES) - 1)
+            cis = [fam * NVAR + v for v in r.sample(range(NVAR), NVAR)][:nfiles]
+        else:
+            cis = [r.randrange(len(DCONTENTS)) for _ in range(nfiles)]
+        if r.random() < 0.15:
+            cis[r.randrange(nfiles)] = None         # a file that only appears later
+        dmain = None if r.random() < 0.35 else [r.choice([c for c in cis if c is not None] + [r.randrange(len(DCONTENTS))]), r.randrange(3)]
+        enforcers.append(dict(flag=r.random() < 0.5, initial=None, dmain=dmain, with_dir=True, overwrite=ow,
+                              dir_files=[[n, c, r.randrange(3)] for n, c in zip(names, cis)]))
+        cur.append([None if dmain is None else dmain[0]] + cis)
+    hist = []
+    for _ in range(r.randint(4, 12)):
+        who = r.randrange(k)
+        e, c = enforcers[who], cur[who]
+        nfiles = len(e['dir_files'])
+        op = r.choice(['load', 'load', 'force', 'enforce', 'enforce', 'touch', 'touch', 'touch', 'touch', 'editfile', 'editfile', 'editfile', 'rmfile'])
+        if op == 'rmfile' and e['overwrite'] is False and r.random() < 0.9:
+            op = 'touch'
+        if op == 'touch':
+            hist.append(['touch', who, r.randrange(nfiles + 1) if r.random() < 0.3 else r.randint(1, nfiles)])
+        elif op == 'editfile':
+            t = r.randrange(-1, nfiles)
+            was = c[t + 1]
+            if was is not None and (r.random() < (0.9 if e['overwrite'] is False else 0.4)):
+                ci = (was // NVAR) * NVAR + (was + r.randint(1, NVAR - 1)) % NVAR        # other values for the same names
+            else:
+                ci = r.randrange(len(DCONTENTS))
+            c[t + 1] = ci
+            hist.append(['editfile', who, [t, ci, r.randrange(3)]])
+        elif op == 'rmfile':
+            t = r.randrange(nfiles)
+            c[t + 1] = None
+            hist.append(['rmfile', who, t])
+        else:
+            hist.append([op, who, r.randrange(40)])
+    n = len(hist)
+    judge = None if r.random() < 0.5 else sorted({i for i in range(n) if r.random() < 0.4} | {n - 1})
+    return dict(s='D', with_dep=r.random() < 0.8, dshape=r.randrange(24), enforcers=enforcers, history=hist, judge=judge, tag=tag)
+
+
 def run(ctx):
     contracts.load_rules_keeps_defaults()
     ctx.reserve(0.8)
@@ -416,6 +623,28 @@ def run(ctx):
                 ctx.sample(case, 'F')
     ctx.stratum('R', exhaustive=False)
     ctx.stratum('F', exhaustive=False)
+    # D0 / D: policy directories with several files, enforcers with and without `overwrite`, touches and edits of single files
+    ctx.reserve(0.9)
+    done0 = True
+    for idx0, case in d0_cases():
+        if not ctx.mine(idx0):
+            continue
+        if ctx.expired():
+            done0 = False
+            break
+        run_history(ctx, case)
+        if idx0 % 100 == 0:
+            ctx.sample(case, 'D0')
+    ctx.stratum('D0', exhaustive=done0)
+    for i in range(BOUNDS_D[ctx.tier]['nD'] // ctx.nshards + 1):
+        if ctx.expired():
+            break
+        tag = '%s.%d.%d' % (ctx.tier, ctx.shard, i)
+        case = dir_case(ctx.sub_rnd('D', tag), tag)
+        run_history(ctx, case)
+        if i % 10 == 0:
+            ctx.sample(case, 'D')
+    ctx.stratum('D', exhaustive=False)
     ctx.release()
     # two enforcers loading at the same time, last (the line-level scheduler slows everything that runs after it is installed)
     from pv.mon import sched
